@@ -6,6 +6,10 @@ def S(name, build, tiers=("quick", "thorough"), args=(), **kw):
     return d
 
 STAGES = {
+    "C09": [
+        S("native", "native"),
+        S("miri", "miri", tiers=("thorough",), args=["--n", "300"], timeout=3000),
+    ],
     "C16": [
         S("native", "native"),
         S("miri", "miri", tiers=("thorough",), args=["--n", "300"], timeout=3000),
@@ -13,10 +17,15 @@ STAGES = {
 }
 
 LEVELS = {
+    "C09": "exploration",
     "C16": "exploration",
 }
 
 ASSUMPTIONS = {
+    "C09": [
+        "the in-memory destination models file semantics (sparse seek, zero fill) as std::fs::File does",
+        "histories only grow the image by appending (as every writer in the crate does); rewriting already-flushed bytes other than directory slots is outside the stated operation set",
+    ],
     "C16": [
         "the hand-written little-endian serializers in harness/src/props/c16.rs encode the minidump format definition correctly",
         "only the x86-64 Linux element types are exercised",
@@ -24,6 +33,11 @@ ASSUMPTIONS = {
 }
 
 META = {
+    "C09": {
+        "technique": "reference file-model monitor compared with the real destination after every call, over random DirSection histories and hostile destinations (short writes, EINTR, injected failures); whole dumps into the same destinations",
+        "level_text": "History level: random grow/emit/flush histories (<=40 ops) on the real DirSection with a content-only file model as oracle, checked after every call, on plain / short-writing / interrupting / failing destinations at 7 start offsets with arbitrary pre-existing content. Whole-dump level: live dumps into the same destinations compared with the returned image. Exploration, not exhaustive.",
+        "level_note": "Trusts the 30-line file model and the in-memory destination. Only the Linux writer's use of DirSection is exercised live; src/mac is not run.",
+    },
     "C16": {
         "technique": "reference-model monitor (byte-vector model in lock-step with the real buffer, compared after every operation) over random operation histories; Miri on a slice",
         "level_text": "Random operation histories on the real Buffer/MemoryWriter/MemoryArrayWriter/write_string_to_location, with an independent byte-vector model and hand-written serializers as oracle, compared after every single operation. Exploration: tens of thousands of histories (hundreds of thousands of operations) per run; not exhaustive.",
